@@ -627,7 +627,13 @@ def run(ctx):
         "the key '.' is excluded (HDF5 reads it as the current group)",
         "node handles are not kept across operations (stale handles and dataset slicing are outside the property)",
     ]
-    cases = core.load_corpus(ID) + gen_cases(ctx)
+    corpus = [] if os.environ.get("C01_NO_CORPUS") else core.load_corpus(ID)  # (switch used to test the generators alone)
+    if corpus:
+        ctx.correspond("corpus", MOD, corpus, lines, "drv_ov", compare=compare, timeout=20.0)
+    if ctx.oracle_hits:
+        ctx.notes.append("a corpus witness fails again; generated histories skipped")
+        return
+    cases = gen_cases(ctx)
     if not ctx.quick:
         small = [dict(ops=h) for h in enum_small()]
         cases += small
@@ -635,7 +641,7 @@ def run(ctx):
     # long runs in chunks so that the driver input stays small
     chunk = 2000
     for i in range(0, len(cases), chunk):
-        ctx.correspond("overlay-vs-plain-vs-models", MOD, cases[i : i + chunk], lines, "drv_ov", compare=compare, timeout=40.0)
+        ctx.correspond("overlay-vs-plain-vs-models", MOD, cases[i : i + chunk], lines, "drv_ov", compare=compare, timeout=20.0)
     ctx.dist["raw-containers-same"] += _raw_stats["same"]
     ctx.dist["raw-containers-differ(diagnostic)"] += _raw_stats["diff"]
     for c in cases:
@@ -651,10 +657,7 @@ def signature(case, detail):
     return "%s:%s" % (ID, str(detail)[:40])
 
 
-def _fails(ops, want, timeout=15.0):
-    from .. import pool
-
-    r = pool.run_one(MOD, "impl", dict(ops=ops), timeout=timeout)
+def _oracle_of(r, want, timeout):
     if "timeout" in r:
         return dict(kind="does-not-terminate", limit_s=timeout) if want in (None, "does-not-terminate") else None
     if "ok" not in r:
@@ -665,19 +668,52 @@ def _fails(ops, want, timeout=15.0):
     return None
 
 
+def _fails_many(cands, want, timeout=15.0):
+    """run all candidate op lists on the real code (parallel workers); list of oracle details / None"""
+    from .. import pool
+
+    res = pool.run(MOD, "impl", [dict(ops=o) for o in cands], timeout=timeout)
+    return [_oracle_of(r, want, timeout) for r in res]
+
+
+_shrunk = {}
+
+
 def shrink(ctx, case, detail):
+    """delta debugging on the operation list; every round tests all candidates in one parallel
+    batch on the real code. Only the first hit of each (kind, operation) class is minimised."""
     want = detail.get("kind") if isinstance(detail, dict) else None
-    ops = case["ops"]
-    # cut behind the failing step first
+    pre = signature(case, detail)
+    if _shrunk.get(pre, 0) >= 2:
+        return case, detail
+    _shrunk[pre] = _shrunk.get(pre, 0) + 1
+    ops = [[x for x in o if x != "rel"] for o in case["ops"]]
     if isinstance(detail, dict) and isinstance(detail.get("step"), int):
         ops = ops[: detail["step"] + 1]
-    if not _fails(ops, want):
-        return case, detail
-    ops = core.ddmin(ops, lambda sub: _fails(sub, want) is not None, max_tests=80)
-    d = _fails(ops, want)
-    if d:
-        return dict(ops=ops), d
-    return case, detail
+    first = _fails_many([ops, case["ops"]], want)
+    if first[0] is None:
+        if first[1] is None:
+            return case, detail
+        ops = case["ops"]
+    best = first[0] or first[1]
+    rounds = 0
+    n = 2
+    while len(ops) >= 2 and rounds < 25:
+        rounds += 1
+        chunk = max(1, len(ops) // n)
+        subsets = [ops[i : i + chunk] for i in range(0, len(ops), chunk)]
+        cands = [[x for j, sb in enumerate(subsets) if j != i for x in sb] for i in range(len(subsets))]
+        cands = [c for c in cands if c]
+        res = _fails_many(cands, want)
+        hit = next((k for k, d in enumerate(res) if d is not None), None)
+        if hit is not None:
+            ops, best = cands[hit], res[hit]
+            n = max(n - 1, 2)
+        else:
+            if n >= len(ops):
+                break
+            n = min(len(ops), n * 2)
+    return dict(ops=ops), best
 
 
 def search(ctx):
